@@ -142,6 +142,13 @@ def _validate(ctx, tlc, traces):
         if t["kind"] == "dbal" and not t["args_ok"]:
             ctx.violation("DBAL unranks with arguments other than (index, n_thetas, 3)", {"kind": "trace", "trace": t})
             break
+    if not bad:
+        from harness.tracecheck import selftest
+
+        def corrupt(t):
+            t["out"][0] += 1
+            return "first element of a returned tuple incremented"
+        selftest(ctx, "TraceUnrank", [t for t in traces if t["kind"] == "point" and t["k"] >= 1][0], corrupt, decide="Decide")
     ctx.sample({"code_to_spec": traces[0]})
     ctx.sample({"code_to_spec": {k: (v if k != "picks" else v[:3]) for k, v in traces[-1].items()}})
 
